@@ -916,3 +916,192 @@ Proof.
   - eexists. split; [vm_compute; reflexivity|]. eexists. split; vm_compute; reflexivity.
   - eexists. split; [vm_compute; reflexivity|]. split; vm_compute; reflexivity.
 Qed.
+
+(* ------------------------------------------------------------------ the reporter keeps reporting (F18) *)
+
+Lemma round_len_pos every r : (rate_limit_ms <= round_len every r)%Z.
+Proof. unfold round_len. destruct r; lia. Qed.
+
+(* repaired reporter: at the end of every round the last report is less than StatsEvery old (or was
+   made in that round), whatever messages arrive *)
+Lemma silences_bounded every : forall rs now last,
+  (last <= now)%Z -> Forall (fun s => 0 <= s < Z.max 1 every)%Z (silences true every now last rs).
+Proof.
+  induction rs as [|r rs IH]; intros now last Hl; cbn [silences]; [constructor|].
+  pose proof (round_len_pos every r) as Hp. unfold rate_limit_ms in Hp.
+  set (now' := (now + round_len every r)%Z).
+  assert (Hn : (last <= now')%Z) by (unfold now'; lia).
+  destruct r as [w|w|].
+  - constructor; [lia|]. apply IH. lia.
+  - cbn [andb]. destruct (every <=? now' - last)%Z eqn:E.
+    + constructor; [lia|]. apply IH. lia.
+    + constructor; [lia|]. apply IH. exact Hn.
+  - constructor; [lia|]. apply IH. lia.
+Qed.
+
+Theorem reporter_keeps_reporting_lemma every rs start :
+  Forall (fun s => 0 <= s < Z.max 1 every)%Z (silences true every start start rs).
+Proof. apply silences_bounded. lia. Qed.
+
+Lemma last_cons_ne {A} (a : A) l d : l <> [] -> last (a :: l) d = last l d.
+Proof. destruct l; [contradiction|reflexivity]. Qed.
+
+(* the reporter as it was: messages that are not update commands postpone the report for ever *)
+Lemma reporter_starved_lemma :
+  forall n, silences false 1000 0 0 (repeat (RNoise 300) (S n)) <> [] /\
+            last (silences false 1000 0 0 (repeat (RNoise 300) (S n))) 0%Z = (1300 * Z.of_nat (S n))%Z.
+Proof.
+  assert (G : forall n now, (0 <= now)%Z ->
+             last (silences false 1000 now 0 (repeat (RNoise 300) (S n))) 0%Z = (now + 1300 * Z.of_nat (S n))%Z).
+  { induction n as [|n IH]; intros now Hn.
+    - cbn. lia.
+    - change (repeat (RNoise 300) (S (S n))) with (RNoise 300 :: repeat (RNoise 300) (S n)).
+      cbn [silences andb]. set (now' := (now + round_len 1000 (RNoise 300))%Z).
+      assert (Hn' : now' = (now + 1300)%Z) by (unfold now', round_len, rate_limit_ms; lia).
+      assert (Hne : silences false 1000 now' 0 (repeat (RNoise 300) (S n)) <> []) by (cbn; discriminate).
+      rewrite (last_cons_ne _ _ _ Hne). rewrite IH by lia. lia. }
+  intros n. split; [cbn; discriminate|]. rewrite G by lia. lia.
+Qed.
+
+(* ------------------------------------------------------------------ what a report says about an admission *)
+
+Lemma join_binds_identity_lemma now id topic scopes connected expires ua xff :
+  let r := report_of_member now (member_at_join id topic scopes connected expires ua xff) in
+  r_topic r = topic /\ r_scopes r = Some scopes /\ r_connected r = connected /\ r_expiresAt r = expires
+  /\ r_userAgent r = ua /\ r_remoteAddr r = xff
+  /\ (r_canRead r = true <-> In lit_read scopes) /\ (r_canWrite r = true <-> In lit_write scopes)
+  /\ rs_last (r_tx r) = lit_Never /\ rs_last (r_rx r) = lit_Never.
+Proof.
+  intros r. subst r.
+  change (r_canRead (report_of_member now (member_at_join id topic scopes connected expires ua xff)))
+    with (existsb (bytes_eqb lit_read) scopes).
+  change (r_canWrite (report_of_member now (member_at_join id topic scopes connected expires ua xff)))
+    with (existsb (bytes_eqb lit_write) scopes).
+  repeat split; try reflexivity.
+  - intros H. apply existsb_exists in H. destruct H as (x & Hx & E). apply bytes_eqb_iff in E. subst. exact Hx.
+  - intros H. apply existsb_exists. exists lit_read. split; [exact H|apply bytes_eqb_refl].
+  - intros H. apply existsb_exists in H. destruct H as (x & Hx & E). apply bytes_eqb_iff in E. subst. exact Hx.
+  - intros H. apply existsb_exists. exists lit_write. split; [exact H|apply bytes_eqb_refl].
+Qed.
+
+(* ------------------------------------------------------------------ GET /status bodies are well-formed *)
+
+(* an array is parsed back whatever follows it (no look-ahead is needed after the closing bracket) *)
+Lemma parse_value_print_arr html l fuel depth rest :
+  printable (JArr l) = true -> depth + jdepth (JArr l) <= max_depth ->
+  (length (print html (JArr l)) < fuel)%nat ->
+  parse_value fuel depth (print html (JArr l) ++ rest) = Some (canon html (JArr l), rest).
+Proof.
+  intros Hpr Hd Hf. destruct fuel as [|k]; [lia|].
+  assert (IH : Forall (PV html) l) by (apply Forall_forall; intros x _; apply parse_value_print_all).
+  rewrite print_arr in *. cbn [canon printable jdepth length] in *.
+  destruct l as [|x r].
+  - cbn [print_elems app map]. apply pv_arr_empty. cbn [fold_right] in Hd. lia.
+  - assert (Hne : x :: r <> []) by discriminate.
+    destruct (print_elems_head html (x :: r) Hne Hpr) as (c & t & Hc & Hw & H93).
+    cbn [app]. rewrite Hc. cbn [app]. rewrite pv_arr by (try assumption; lia).
+    change (c :: t ++ rest) with ((c :: t) ++ rest). rewrite <- Hc.
+    rewrite (elems_ok html (x :: r) IH Hne k (depth + 1) rest []); [reflexivity|assumption| |lia].
+    eapply Forall_impl; [|apply (jdepth_fold_arr (x :: r) (max_depth - (depth + 1))); lia].
+    cbn beta. intros a Ha. lia.
+Qed.
+
+Lemma omit_num_ok k f l : omit_num k f = Some l -> forallb (fun kv => printable (snd kv)) l = true /\ Forall (fun kv => jdepth (snd kv) = 0) l.
+Proof.
+  unfold omit_num. destruct f as [lex|]; [|discriminate]. destruct (zero_lex lex).
+  - intros H; inversion H; subst. split; [reflexivity|constructor].
+  - destruct (num_ok lex) eqn:E; [|discriminate]. intros H; inversion H; subst.
+    cbn [forallb snd printable]. rewrite E. split; [reflexivity|repeat constructor].
+Qed.
+
+Lemma omit_str_ok k s : forallb (fun kv => printable (snd kv)) (omit_str k s) = true /\ Forall (fun kv => jdepth (snd kv) = 0) (omit_str k s).
+Proof. unfold omit_str. destruct s; split; try reflexivity; repeat constructor. Qed.
+
+Lemma omit_bool_ok k b : forallb (fun kv => printable (snd kv)) (omit_bool k b) = true /\ Forall (fun kv => jdepth (snd kv) = 0) (omit_bool k b).
+Proof. unfold omit_bool. destruct b; split; try reflexivity; repeat constructor. Qed.
+
+Lemma members_depth_le (l : list (bytes * json)) m :
+  Forall (fun kv => jdepth (snd kv) <= m) l -> fold_right (fun kv a => N.max (jdepth (snd kv)) a) 0 l <= m.
+Proof. induction 1 as [|kv l H _ IH]; cbn [fold_right]; lia. Qed.
+
+Lemma forallb_app_true {A} (p : A -> bool) a b : forallb p a = true -> forallb p b = true -> forallb p (a ++ b) = true.
+Proof. intros Ha Hb. rewrite forallb_app, Ha, Hb. reflexivity. Qed.
+
+Lemma rest_details_ok s j : rest_details s = Some j -> printable j = true /\ jdepth j <= 1.
+Proof.
+  unfold rest_details. destruct (omit_num k_fps (rs_fps s)) as [f|] eqn:Ef; [|discriminate].
+  destruct (omit_num k_size (rs_size s)) as [z|] eqn:Ez; [|discriminate]. intros H; inversion H; subst.
+  destruct (omit_num_ok _ _ _ Ef) as [Pf Df]. destruct (omit_num_ok _ _ _ Ez) as [Pz Dz].
+  destruct (omit_str_ok k_last (rs_last s)) as [Ps Ds].
+  cbn [printable jdepth]. split.
+  - repeat apply forallb_app_true; assumption.
+  - assert (fold_right (fun kv a => N.max (jdepth (snd kv)) a) 0 (f ++ omit_str k_last (rs_last s) ++ z) <= 0); [|lia].
+    apply members_depth_le. repeat (apply Forall_app; split); eapply Forall_impl; try eassumption; cbn beta; intros; lia.
+Qed.
+
+Definition mdepth (l : list (bytes * json)) : N := fold_right (fun kv a => N.max (jdepth (snd kv)) a) 0 l.
+
+Lemma mdepth_app a b : mdepth (a ++ b) = N.max (mdepth a) (mdepth b).
+Proof. unfold mdepth. induction a as [|x a IH]; cbn [app fold_right]; [lia|]. rewrite IH. lia. Qed.
+
+Lemma mdepth_zero l : Forall (fun kv => jdepth (snd kv) = 0) l -> mdepth l = 0.
+Proof. unfold mdepth. induction 1 as [|kv l H _ IH]; cbn [fold_right]; lia. Qed.
+
+Lemma rest_report_ok r j : rest_report r = Some j -> printable j = true /\ jdepth j <= 3.
+Proof.
+  unfold rest_report. destruct (rest_details (r_rx r)) as [x|] eqn:Ex; [|discriminate].
+  destruct (rest_details (r_tx r)) as [t|] eqn:Et; [|discriminate]. intros H.
+  apply rest_details_ok in Ex. apply rest_details_ok in Et. destruct Ex as [Px Dx]. destruct Et as [Pt Dt].
+  destruct (scopes_json_ok (r_scopes r)) as [Psc Dsc].
+  destruct (omit_bool_ok rk_can_read (r_canRead r)) as [B1 E1]. destruct (omit_bool_ok rk_can_write (r_canWrite r)) as [B2 E2].
+  destruct (omit_str_ok rk_connected (r_connected r)) as [S1 F1]. destruct (omit_str_ok rk_expires_at (r_expiresAt r)) as [S2 F2].
+  destruct (omit_str_ok rk_remote_addr (r_remoteAddr r)) as [S3 F3]. destruct (omit_str_ok rk_topic (r_topic r)) as [S4 F4].
+  destruct (omit_str_ok rk_user_agent (r_userAgent r)) as [S5 F5].
+  remember [(rk_scopes, scopes_json (r_scopes r)); (rk_stats, JObj [(k_rx, x); (k_tx, t)])] as mid eqn:Hmid.
+  assert (Pm : forallb (fun kv : bytes * json => printable (snd kv)) mid = true).
+  { subst mid. cbn [forallb snd printable]. rewrite Psc, Px, Pt. reflexivity. }
+  assert (Dm : mdepth mid <= 2).
+  { subst mid. unfold mdepth. cbn [fold_right snd jdepth]. lia. }
+  clear Hmid.
+  inversion H; subst j. clear H. cbn [printable jdepth].
+  match goal with |- _ /\ 1 + ?f <= 3 =>
+    change f with (mdepth (omit_bool rk_can_read (r_canRead r) ++ omit_bool rk_can_write (r_canWrite r) ++
+      omit_str rk_connected (r_connected r) ++ omit_str rk_expires_at (r_expiresAt r) ++
+      omit_str rk_remote_addr (r_remoteAddr r) ++ mid ++ omit_str rk_topic (r_topic r) ++ omit_str rk_user_agent (r_userAgent r)))
+  end.
+  split.
+  - rewrite !forallb_app. repeat (apply andb_true_iff; split); assumption.
+  - rewrite !mdepth_app, (mdepth_zero _ E1), (mdepth_zero _ E2), (mdepth_zero _ F1), (mdepth_zero _ F2),
+      (mdepth_zero _ F3), (mdepth_zero _ F4), (mdepth_zero _ F5). lia.
+Qed.
+
+Lemma map_opt_rest_ok rs l :
+  map_opt rest_report rs = Some l ->
+  forallb printable l = true /\ fold_right (fun x a => N.max (jdepth x) a) 0 l <= 3.
+Proof.
+  revert l. induction rs as [|r rs IH]; intros l; cbn [map_opt].
+  - intros H; inversion H; subst. split; [reflexivity|cbn; lia].
+  - destruct (rest_report r) as [j|] eqn:Ej; [|discriminate].
+    destruct (map_opt rest_report rs) as [js|]; [|discriminate]. intros H; inversion H; subst.
+    destruct (IH js eq_refl) as [P D]. apply rest_report_ok in Ej. destruct Ej as [Pj Dj].
+    cbn [forallb fold_right]. rewrite Pj, P. split; [reflexivity|lia].
+Qed.
+
+(* whatever GET /status writes is well-formed JSON, and reading it back gives the projected values
+   (strings with invalid UTF-8 replaced) *)
+Theorem encode_rest_wf_lemma rs s :
+  encode_rest rs = Some s ->
+  json_wf s = true /\
+  exists l, map_opt rest_report rs = Some l /\ parse s = Some (canon false (JArr l)).
+Proof.
+  unfold encode_rest. destruct (map_opt rest_report rs) as [l|] eqn:E; [|discriminate].
+  intros H. assert (Hs : s = print false (JArr l) ++ [10]) by congruence. clear H. subst s.
+  pose proof (map_opt_rest_ok _ _ E) as [P D].
+  assert (Hp : parse (print false (JArr l) ++ [10]) = Some (canon false (JArr l))).
+  { unfold parse. rewrite parse_value_print_arr.
+    - reflexivity.
+    - exact P.
+    - cbn [jdepth]. unfold max_depth. lia.
+    - rewrite app_length. cbn [length]. lia. }
+  split; [unfold json_wf; rewrite Hp; reflexivity|]. exists l. split; [reflexivity|exact Hp].
+Qed.
